@@ -539,7 +539,7 @@ class StreamResultRouter(StreamResult):
         self._test_ids = {}
         # Records sinks that should have do_start_stop_run called on them.
         self._sinks = []
-        if do_start_stop_run and fallback:
+        if do_start_stop_run and fallback is not None:
             self._sinks.append(fallback)
         self._in_run = False
 
